@@ -110,12 +110,16 @@ class YajilinClue(Combinator):
                 return None
             if dir == "5":
                 return 3, ["??"]
+            if not all(c in "0123456789abcdef" for c in data[idx + 1 : idx + 3]):
+                return None
             return 3, [f"{DIR_MAP[int(dir) - 5]}{int(data[idx + 1 : idx + 3], 16)}"]
         if dir not in "1234":
             return None
         n = data[idx + 1]
         if n == ".":
             return 2, ["??"]
+        if n not in "0123456789abcdef":
+            return None
         return 2, [f"{DIR_MAP[int(dir)]}{int(n, 16)}"]
 
 
